@@ -185,7 +185,8 @@ class HistSim(Sim):
     def _gen_twin(self, rng, st, nodes):
         """A second user issues an EARLIER operation again - same op, same arguments, same operand shapes/dtypes, other values -
         before (or after) the first graph is differentiated: anything the library keeps per geometry rather than per call would be shared."""
-        src = st.meta[rng.choice(nodes)]["ev"]
+        geo = [i for i in nodes if st.meta[i]["ev"]["op"] in ("conv1d", "conv2d", "max_pool1d", "avg_pool1d", "max_pool2d", "avg_pool2d", "unfold", "unfold_dim")]
+        src = st.meta[rng.choice(geo if (geo and rng.random() < 0.5) else nodes)]["ev"]      # (half of the time an op with window geometry, if there is one)
         if any(i not in st.T for i in src["in"]) or src["op"] in ("unbind", "batch_norm_run"):
             return None
         evs, twin, nid = [], {}, st.next_id
@@ -745,7 +746,6 @@ class HistSim(Sim):
         reach = self._reach(st, root)
         if g is not None and not np.isfinite(g).all():
             st.probes["nonfinite_upstream_gradient"] += 1
-        contrib = self._isolated(st, root, g)
         others = [i for i in st.T if i not in reach]
         snap = self._snapshot(st, others)
         if any(self._grad_bytes(st.T[i]) is not None for i in others):
@@ -781,6 +781,10 @@ class HistSim(Sim):
         except Exception as e:
             raised = e
         SEAM.disarm()
+        # the reference: the same call on a fresh copy of the graph.  It runs AFTER the system's sweep: the replay's own forward pass
+        # would otherwise refresh anything the library keeps per process (per-geometry caches, scratch buffers) just before the sweep
+        # under test reads it, and heal exactly the state a history is meant to expose
+        contrib = self._isolated(st, root, g)
         st.cur_sig = f"bw:{role}:{'x' if crossed else '-'}:{'f' if isinstance(raised, SimFault) else '-'}"
         leaves_reached = [i for i in reach if st.meta[i]["kind"] == "leaf" and st.meta[i]["rg"]]
         # precision class: a NON-leaf that was once seeded with a float32 g may keep a float32 buffer (re-zeroed in place or replaced -
